@@ -724,6 +724,9 @@ class Interp:
     def _class_def(self, cls_name, attr):
         """Definition of `attr` in the class body (follows one level of class-level aliasing)."""
         qual = self.instance_classes[cls_name]
+        return self._class_def_q(qual, attr, cls_name)
+
+    def _class_def_q(self, qual, attr, cls_name=None, depth=0):
         cls = self.repo.cls(qual)
         found = None
         for st in cls.body:
@@ -731,9 +734,17 @@ class Interp:
                 found = st
             elif isinstance(st, ast.Assign) and any(isinstance(t, ast.Name) and t.id == attr for t in st.targets):
                 if isinstance(st.value, ast.Name):
-                    found = self._class_def(cls_name, st.value.id)
+                    found = self._class_def_q(qual, st.value.id, cls_name, depth)
                 else:
                     found = st
+        if found is None and depth < 4:
+            module = qual.split(".")[0]
+            for b in cls.bases:
+                bq = f"{module}.{un(b)}"
+                if self.repo.has(bq) and isinstance(self.repo.lookup(bq), ast.ClassDef):
+                    found = self._class_def_q(bq, attr, cls_name, depth + 1)
+                    if found is not None:
+                        break
         return found
 
     def _instance_attr(self, v, name, node=None):
